@@ -1,28 +1,33 @@
-"""fork-based parallel map; workers return picklable results (dicts, lists, ints)"""
+"""fork-based parallel map: the items (which may hold the parsed MIR, lambdas, z3 terms) are inherited through fork,
+only indices travel to the workers; results must be picklable (dicts, lists, ints)"""
 import multiprocessing as mp, os, traceback
 
 _FN = None
+_ITEMS = None
 
-def _call(i_item):
-    i, item = i_item
+def _call(i):
     try:
-        return i, _FN(item), None
+        return i, _FN(_ITEMS[i]), None
     except Exception:
         return i, None, traceback.format_exc()
 
 def pmap(fn, items, procs=None):
-    global _FN
+    global _FN, _ITEMS
     items = list(items)
     procs = min(procs or int(os.environ.get('VERIF_PROCS', os.cpu_count() or 4)), max(1, len(items)))
     if procs <= 1 or len(items) <= 1:
         return [fn(x) for x in items]
-    _FN = fn
+    _FN = fn; _ITEMS = items
     ctxm = mp.get_context('fork')
     with ctxm.Pool(procs) as pool:
-        res = pool.map(_call, list(enumerate(items)), chunksize=1)
+        res = pool.map(_call, range(len(items)), chunksize=1)
+    _ITEMS = None
     out = [None] * len(items)
     for i, r, e in res:
         if e:
+            from .report import Broken
+            if 'Broken' in e.splitlines()[-1]:
+                raise Broken('worker: ' + e.splitlines()[-1])
             raise RuntimeError('worker failed:\n' + e)
         out[i] = r
     return out
